@@ -101,6 +101,24 @@ type Def struct {
 	Value  *Val // const value
 	Funcs  []Func
 	Parent string
+	// GoName, when set, is emitted as the go.name annotation of the definition
+	// (typedef, enum, struct, union, exception): the generated Go type has this name.
+	GoName string
+}
+
+// GoIdent is the name of the generated Go type for d.
+func (d *Def) GoIdent() string {
+	if d.GoName != "" {
+		return d.GoName
+	}
+	return d.Name
+}
+
+func (d *Def) goNameAnnot() string {
+	if d.GoName == "" {
+		return ""
+	}
+	return fmt.Sprintf(" (go.name = %q)", d.GoName)
 }
 
 // EnumItem is an enum member.
@@ -267,19 +285,19 @@ func (p *Program) Render() map[string]string {
 		for _, d := range f.Defs {
 			switch d.Kind {
 			case "typedef":
-				fmt.Fprintf(&sb, "typedef %s %s\n", d.Target.IDL(), d.Name)
+				fmt.Fprintf(&sb, "typedef %s %s%s\n", d.Target.IDL(), d.Name, d.goNameAnnot())
 			case "enum":
 				sb.WriteString("enum " + d.Name + " {\n")
 				for _, it := range d.Items {
 					fmt.Fprintf(&sb, "  %s = %d,\n", it.Name, it.Value)
 				}
-				sb.WriteString("}\n")
+				sb.WriteString("}" + d.goNameAnnot() + "\n")
 			case "struct", "union", "exception":
 				sb.WriteString(d.Kind + " " + d.Name + " {\n")
 				for _, fd := range d.Fields {
 					sb.WriteString(p.fieldIDL(f, fd, d.Kind != "union", ""))
 				}
-				sb.WriteString("}\n")
+				sb.WriteString("}" + d.goNameAnnot() + "\n")
 			case "const":
 				fmt.Fprintf(&sb, "const %s %s = %s\n", d.Target.IDL(), d.Name, p.LitIDL(f, d.Target, d.Value))
 			case "service":
